@@ -21,7 +21,10 @@ def run(ctx):
             continue
         # every third observation is run twice on the same objects (a session: Rerun)
         jobs.append(dict(ocfg=c, variant=k, scheduler=("synchronous", "threads")[k % 2] if c["dask"] else None,
-                         workers=2 if c["dask"] and k % 2 else None, repeat=2 if k % 3 == 0 else 1))
+                         workers=2 if c["dask"] and k % 2 else None,
+                         # (not after a failure: threads that a failed parallel observation leaves behind may start
+                         # their run while the second pass is being recorded)
+                         repeat=2 if (k % 3 == 0 and not c["fault"]) else 1))
     traces = O.record(jobs)
     ctx.cov["replayed_cases"] += len(traces)
     ctx.sample({"ocfg": traces[2]["ocfg"], "events": [e for e in traces[2]["events"] if e["e"] in ("run", "user_after")][:4]})
